@@ -2,6 +2,7 @@ package main
 
 import (
 	"go/types"
+	"sort"
 	"strings"
 
 	"golang.org/x/tools/go/ssa"
@@ -24,7 +25,13 @@ func (e *Exec) onLock(st *State, fr *Frame, site ssa.Instruction, m *Term, exclu
 			}
 		}
 	}
-	for key, inv := range e.db.lockinvs {
+	lkeys := make([]string, 0, len(e.db.lockinvs))
+	for key := range e.db.lockinvs {
+		lkeys = append(lkeys, key)
+	}
+	sort.Strings(lkeys)
+	for _, key := range lkeys {
+		inv := e.db.lockinvs[key]
 		if strings.HasPrefix(key, "any") {
 			// generic invariant over the mutex reference `m`
 			ctx := e.newSpecCtx(st, e.P.tpkgs[pkgGldap], st.frames[0].entry)
@@ -165,7 +172,13 @@ func (e *Exec) checkProtected(st *State, fr *Frame, instr ssa.Instruction, addr 
 // under which the waiter waits is held exclusively" - otherwise the Add is not
 // ordered before a concurrent Wait and the waiter may return too early.
 func (e *Exec) checkWgOrder(st *State, fr *Frame, site ssa.Instruction, wg *Term, delta *Term) {
-	for key, cl := range e.db.wgorders {
+	wkeys := make([]string, 0, len(e.db.wgorders))
+	for key := range e.db.wgorders {
+		wkeys = append(wkeys, key)
+	}
+	sort.Strings(wkeys)
+	for _, key := range wkeys {
+		cl := e.db.wgorders[key]
 		i := strings.LastIndex(key, ".")
 		tname, fname := key[:i], key[i+1:]
 		pkgPath := pkgGldap
